@@ -231,6 +231,7 @@ def make_body_a(info):
                                       'end-to-end witness %r compiles without an exception' % (script['nlex'], script['npar'], script['eof'], WITNESS[cls]))
                 except Exception as e:
                     info['reason'] = 'stub-level violation does not reproduce end-to-end: %r raises %s' % (WITNESS[cls], type(e).__name__)
+                    info['not_end_to_end'] = True
                     return ch.HOLDS_TRIVIAL
             return ch.VIOLATED
         if not must_raise:
